@@ -128,6 +128,13 @@ theorem parseSSE_prefix (a b : Bytes) : ∃ rest, (parseSSE (a ++ b)).1 = (parse
   simp only [parseSSE]
   rw [splitLines_append, parseLines_append]
 
+theorem item_notPing (c : Chunk) : notPing c.item = decide (c ≠ Chunk.ping) := by
+  cases c <;> simp [notPing, Chunk.item, pingItem, hdrItem, nextItem, completeItem, pingText]
+
+theorem filter_item (cs : List Chunk) :
+    (cs.map Chunk.item).filter notPing = (cs.filter (· ≠ Chunk.ping)).map Chunk.item := by
+  simp [List.filter_map, Function.comp_def, item_notPing]
+
 /-! ### the SSE machine -/
 
 theorem sse_closed_step (s : SseSt) (h : s.closed = true) (ht : s.todo = []) (x : Step) : s.step x = s := by
